@@ -8,6 +8,7 @@ import (
 	"hash/fnv"
 	"image"
 	"image/color"
+	"regexp"
 	"strconv"
 	"strings"
 	"time"
@@ -30,8 +31,23 @@ type srcEv struct {
 }
 
 type lineJ struct {
-	B   []int `json:"b"`
-	Num []int `json:"num"` // float32 bits of the first token when it parses as a number, else empty
+	B    []int `json:"b"`
+	Num  []int `json:"num"`  // operand lines: float32 bits of the first token when it parses as a number, else empty
+	Ints []int `json:"ints"` // opcode lines: every unsigned decimal integer in the text, in order
+	PP   int   `json:"pp"`   // opcode lines: 1 when the text contains "++"
+	Col  *colJ `json:"col,omitempty"`
+}
+
+// colJ is a colour (or arc flags) text of an operand line, tokenised:
+// "RGBA rrggbbaa" -> rgba [r g b a]; "customPalette[i]" -> pal [i]; "CREG[i]" -> creg [i];
+// "gradient (NSTOPS=n, CBASE=c, NBASE=b, linear|radial, none|pad|reflect|repeat)" -> gradient [n c b shape spread];
+// "blend (p:q) (X:Y)" -> blend [p q] with X, Y nested; "nonsensical color" -> nonsense;
+// "0xN (largeArc=a, sweep=s)" -> flags [a s].
+type colJ struct {
+	K  string `json:"k"`
+	V  []int  `json:"v"`
+	C0 *colJ  `json:"c0,omitempty"`
+	C1 *colJ  `json:"c1,omitempty"`
 }
 
 type callEv struct {
@@ -286,6 +302,15 @@ func parseListing(dis []byte) []lineJ {
 			}
 			lj.B = append(lj.B, int(v))
 		}
+		if !strings.HasPrefix(text, "    ") {
+			lj.Ints = uints(text)
+			lj.PP = b2i(strings.Contains(text, "++"))
+		} else {
+			lj.Col = parseCol(strings.TrimSpace(text))
+		}
+		if lj.Ints == nil {
+			lj.Ints = []int{}
+		}
 		if strings.HasPrefix(text, "    ") {
 			tok := strings.Fields(text)
 			if len(tok) > 0 {
@@ -298,6 +323,86 @@ func parseListing(dis []byte) []lineJ {
 		out = append(out, lj)
 	}
 	return out
+}
+
+var reUint = regexp.MustCompile(`[0-9]+`)
+
+func uints(s string) []int {
+	out := []int{}
+	for _, m := range reUint.FindAllString(s, -1) {
+		v, err := strconv.Atoi(m)
+		if err != nil {
+			v = -1
+		}
+		out = append(out, v)
+	}
+	return out
+}
+
+var (
+	reRGBA  = regexp.MustCompile(`^RGBA ([0-9a-f]{2})([0-9a-f]{2})([0-9a-f]{2})([0-9a-f]{2})$`)
+	rePal   = regexp.MustCompile(`^customPalette\[([0-9]+)\]$`)
+	reCReg  = regexp.MustCompile(`^CREG\[([0-9]+)\]$`)
+	reGrad  = regexp.MustCompile(`^gradient \(NSTOPS=([0-9]+), CBASE=([0-9]+), NBASE=([0-9]+), (linear|radial), (none|pad|reflect|repeat)\)$`)
+	reBlend = regexp.MustCompile(`^blend \(([0-9]+):([0-9]+)\) \((.*)\)$`)
+	reFlags = regexp.MustCompile(`^0x[0-9a-f]+ \(largeArc=([01]), sweep=([01])\)$`)
+)
+
+func atoi(s string) int { v, _ := strconv.Atoi(s); return v }
+
+func parseCol(t string) *colJ {
+	if m := reRGBA.FindStringSubmatch(t); m != nil {
+		c := &colJ{K: "rgba"}
+		for _, h := range m[1:] {
+			v, _ := strconv.ParseUint(h, 16, 8)
+			c.V = append(c.V, int(v))
+		}
+		return c
+	}
+	if m := rePal.FindStringSubmatch(t); m != nil {
+		return &colJ{K: "pal", V: []int{atoi(m[1])}}
+	}
+	if m := reCReg.FindStringSubmatch(t); m != nil {
+		return &colJ{K: "creg", V: []int{atoi(m[1])}}
+	}
+	if m := reGrad.FindStringSubmatch(t); m != nil {
+		shape := map[string]int{"linear": 0, "radial": 1}[m[4]]
+		spread := map[string]int{"none": 0, "pad": 1, "reflect": 2, "repeat": 3}[m[5]]
+		return &colJ{K: "gradient", V: []int{atoi(m[1]), atoi(m[2]), atoi(m[3]), shape, spread}}
+	}
+	if m := reFlags.FindStringSubmatch(t); m != nil {
+		return &colJ{K: "flags", V: []int{atoi(m[1]), atoi(m[2])}}
+	}
+	if t == "nonsensical color" {
+		return &colJ{K: "nonsense", V: []int{}}
+	}
+	if m := reBlend.FindStringSubmatch(t); m != nil {
+		c := &colJ{K: "blend", V: []int{atoi(m[1]), atoi(m[2])}}
+		// the two operands are separated by the ':' that is not inside "(...)" of a nested text
+		inner, depth := m[3], 0
+		for i, ch := range inner {
+			switch ch {
+			case '(':
+				depth++
+			case ')':
+				depth--
+			case ':':
+				if depth == 0 {
+					c.C0, c.C1 = parseCol(inner[:i]), parseCol(inner[i+1:])
+					if c.C0 == nil {
+						c.C0 = &colJ{K: "unparsed", V: []int{}}
+					}
+					if c.C1 == nil {
+						c.C1 = &colJ{K: "unparsed", V: []int{}}
+					}
+					return c
+				}
+			}
+		}
+		c.K = "unparsed"
+		return c
+	}
+	return nil
 }
 
 // teeDest delivers to a Recorder and a Renderer, capturing per-call rasteriser activity.
